@@ -4,6 +4,7 @@ import (
 	"encoding/json"
 	"fmt"
 	"strings"
+	"sync"
 
 	saml2 "github.com/russellhaering/gosaml2"
 	"time"
@@ -71,23 +72,29 @@ func c07ExecOn(c c07Case, live *saml2.SAMLServiceProvider) (keys []string, detai
 	twin := idp.RenderResponse(c07Spec(c, false))
 	sp := conf.Build()
 	if live != nil {
+		// only what differs from the previous call is touched: the key store is replaced only when
+		// its certificate state changes (replacing it through the setter on every call would also
+		// drop whatever the instance remembers about its key, and hide it)
 		live.Clock = sp.Clock
 		live.ValidateEncryptionCert = sp.ValidateEncryptionCert
-		live.SPKeyStore = sp.SPKeyStore
-		if c.Setter {
-			live.SPKeyStore = nil
-			ks := world.SetterKeyStore("KS")
-			switch c.CertState {
-			case "empty":
-				ks.Cert = []byte{}
-			case "garbage":
-				ks.Cert = []byte("this is not a DER certificate")
+		state := fmt.Sprintf("%v/%v/%s", c.Setter, c.Custom, c.CertState)
+		if prev, seen := c07LiveState.Load(live); !seen || prev.(string) != state {
+			c07LiveState.Store(live, state)
+			if c.Setter {
+				live.SPKeyStore = nil
+				ks := world.SetterKeyStore("KS")
+				switch c.CertState {
+				case "empty":
+					ks.Cert = []byte{}
+				case "garbage":
+					ks.Cert = []byte("this is not a DER certificate")
+				}
+				if p := guard(func() { live.SetSPKeyStore(ks) }); p != "" {
+					return []string{"C07/partB/panic"}, "SetSPKeyStore panicked: " + p, "panic"
+				}
+			} else {
+				live.SPKeyStore = sp.SPKeyStore
 			}
-			if p := guard(func() { live.SetSPKeyStore(ks) }); p != "" {
-				return []string{"C07/partB/panic"}, "SetSPKeyStore panicked: " + p, "panic"
-			}
-		} else if p := guard(func() { live.SetSPKeyStore(nil) }); p != "" {
-			return []string{"C07/partB/panic"}, "SetSPKeyStore(nil) panicked: " + p, "panic"
 		}
 		sp = live
 	}
@@ -213,6 +220,9 @@ func c07Pairs() []c07Pair {
 	})
 	return out
 }
+
+// c07LiveState remembers, per long-lived instance, the key-store state last installed on it.
+var c07LiveState sync.Map
 
 type c07History struct {
 	History []c07Case `json:"history"`
